@@ -11,9 +11,10 @@ import Driver.Storage
 import Driver.Analysis
 import Driver.Boundary
 import Driver.Sim
+import Driver.Lib
 open Fpy Fpy.Drv
 
-def handlers : List (String → Option (P String)) := [handleNum, handleCheck, handleExact, handleLiteral, handleEnc, handleAbsFmt, handleCursor, handleFPCore, handleStorage, handleAnalysis, handleBoundary]
+def handlers : List (String → Option (P String)) := [handleNum, handleCheck, handleExact, handleLiteral, handleEnc, handleAbsFmt, handleCursor, handleFPCore, handleStorage, handleAnalysis, handleBoundary, handleLib]
 
 def handleLine (line : String) : String :=
   match handleLangLine line with
